@@ -12,7 +12,7 @@ pub fn run_main(f: fn(&[u64]) -> Vec<u64>) {
     std::panic::set_hook(Box::new(|_| {}));
     // watchdog: a script that does not finish (e.g. a loop that no longer terminates) kills the
     // process instead of stalling the check; the orchestrator attributes the crash to that script
-    let limit: u64 = std::env::var("IMPLRUN_WATCHDOG_SECS").ok().and_then(|v| v.parse().ok()).unwrap_or(40);
+    let limit: u64 = std::env::var("IMPLRUN_WATCHDOG_SECS").ok().and_then(|v| v.parse().ok()).unwrap_or(10);
     let progress = std::sync::Arc::new(std::sync::atomic::AtomicU64::new(0));
     {
         let progress = progress.clone();
